@@ -25,7 +25,7 @@ import (
 //     method of the manager closes; its key channels are its chan string fields;
 //   - constructors are the functions returning (*client-state, error);
 //   - run methods of the client state call the interface's Run, stop methods
-//     perform Once.Do(close(stop channel)) on every path;
+//     close the state's stop channel;
 //   - the scan function holds the store into the map, the main loop is the
 //     method with a select case receiving from the manager's stop channel.
 //
@@ -472,8 +472,10 @@ func newCmModel(c *kit.Ctx) *cmModel {
 					m.runM = cmAppendFunc(m.runM, f)
 				}
 			}
-			if alwaysCalls(f, func(call *ast.CallExpr) bool { return m.isOnceClose(f, call) }) {
-				m.stopM = append(m.stopM, f)
+			for _, call := range f.AllCalls(true) {
+				if cmIsBuiltin(info, call, "close") && len(call.Args) == 1 && cmField(info, call.Args[0]) == m.csStopCh {
+					m.stopM = cmAppendFunc(m.stopM, f)
+				}
 			}
 		}
 		if rt == m.mgr {
@@ -519,7 +521,7 @@ func newCmModel(c *kit.Ctx) *cmModel {
 		c.Fatalf("no method of %s calls the client interface's Run", m.cs.Obj().Name())
 	}
 	if len(m.stopM) == 0 {
-		c.Fatalf("no method of %s closes the stop channel through sync.Once.Do on every path", m.cs.Obj().Name())
+		c.Fatalf("no method of %s closes its stop channel", m.cs.Obj().Name())
 	}
 	if m.mgrStopCh == nil {
 		c.Fatalf("no method of %s closes one of its channels (manager stop channel)", m.mgr.Obj().Name())
